@@ -18,6 +18,8 @@ func C06(r *core.Run) {
 	rules.PanicSites(r, sc, bce, "panic_sites")
 	tc := rules.DefaultTermConfig()
 	tc.MinLoops, tc.MinSites = termProps["C06"][0], termProps["C06"][1]
+	// "never … exhausts the stack": the decoder's recursion over nested values needs a constant bound
+	tc.DepthRels, tc.MinDepthSites = []string{"internal/codec"}, 10
 	rules.Termination(r, sc, tc)
 	// a cached reflection object built for one descriptor and handed to a message of another
 	// makes protobuf-go panic ("field descriptor does not belong to this message")
